@@ -262,7 +262,7 @@ MANIFEST_TEXT["C05"] = {
 PLAN["C10"] = {
     "pkg": "c10",
     "tests": [
-        {"name": "TestRejectedResumes", "quick": (8000, 16), "thorough": (480000, 16)},
+        {"name": "TestRejectedResumes", "quick": (16000, 16), "thorough": (480000, 16)},
     ],
     "budget": {"quick": 600, "thorough": 5400},
     "rule": SCENARIO_RULE + "Resumes include deliberately unacceptable types for the current wait (and resumes of completed/failed sessions), "
